@@ -232,7 +232,49 @@ func checkC17(c *Ctx) Meta {
 					}
 				}
 			}
+			// a counted goroutine never waits for the group it is counted in: no Wait on the same WaitGroup is
+			// reachable from it through synchronous calls (it has to hand the shutdown to another goroutine)
+			selfWait := ""
+			{
+				seen := map[*ssa.Function]bool{}
+				var walk func(f *ssa.Function, via string)
+				walk = func(f *ssa.Function, via string) {
+					if seen[f] || selfWait != "" {
+						return
+					}
+					seen[f] = true
+					allInstrs(f, func(i2 ssa.Instruction) {
+						var cc *ssa.CallCommon
+						switch x := i2.(type) {
+						case *ssa.Call:
+							cc = &x.Call
+						case *ssa.Defer:
+							cc = &x.Call
+						default:
+							return // `go f()` runs elsewhere
+						}
+						h := cc.StaticCallee()
+						if h == nil {
+							return
+						}
+						if h.String() == "(*sync.WaitGroup).Wait" {
+							if fa, ok := cc.Args[0].(*ssa.FieldAddr); ok {
+								if t, fl, _, ok := fieldOfAddr(fa); ok && t+"."+fl == doneField {
+									selfWait = via + f.Name() + " at " + c.Pos(i2.Pos())
+								}
+							}
+							return
+						}
+						if scope[h] {
+							walk(h, via+f.Name()+" → ")
+						}
+					})
+				}
+				walk(callee, "")
+			}
 			switch {
+			case selfWait != "":
+				c.Bad("C17-WG", key, c.Pos(g.Pos()), callee.Name()+" is counted in "+shortType(doneField)+" and can itself wait for that group ("+selfWait+"): it waits for its own exit, the stop function never returns and the peer is never released")
 			case !deferred:
 				c.Bad("C17-WG", key, c.Pos(g.Pos()), callee.Name()+" does not begin with defer wg.Done(): a panic or early return leaves waitStop waiting forever")
 			case !added:
@@ -414,6 +456,12 @@ func checkC17(c *Ctx) Meta {
 	checkCtxPassThrough(c, fns)
 	c.Rule("C17-OWN", "every frame handed to the receive queue owns its buffer (allocated afresh per frame): reports are delivered unmodified", 1)
 	checkFrameOwnership(c)
+
+	// the wire codec (C16) is a premise of "a report is delivered unmodified, directly or through relays":
+	// its rules run here under C17's name
+	c.pushAlias("C16-", "C17-WIRE-")
+	checkC16(c)
+	c.popAlias()
 
 	return Meta{
 		Explanation: "Decides the no-panic / prompt-return structure of the cluster layer and two routing bindings: CAS-guarded stop protocol of every component, wait-group discipline of every counted goroutine, close/send discipline of every channel field, a cancellation arm on every blocking operation of a waited goroutine, no blocking send under the task lock, AddTask/RemoveTask pairing, and provenance of the channel a report is sent on.",
@@ -642,6 +690,54 @@ func checkRouting(c *Ctx) {
 			c.OK(rule, key, c.Pos(f.Pos()), "resp is sent on taskCache.Get(resp.Msg.ID())")
 		} else {
 			c.Bad(rule, key, c.Pos(f.Pos()), "a report is not sent on the channel registered for the task id it names")
+		}
+	}
+	if f := c.MustFn(rule, "fractal", "(*LocalSuperior).AddTask"); f != nil {
+		// the waiter exists before anybody can answer: the task's channel is entered into the task cache
+		// (under the task's own id) before the request leaves through Send/Broadcast — a collector that
+		// answers from inside its Request* call finds no waiter otherwise and the report is dropped
+		key := "AddTask:registered-before-sent"
+		regs := findSteps(f, func(cl *ssa.Call) bool {
+			return callName(cl) == "Add" && callRecv(cl) != nil && backSlice(callRecv(cl)).hasField(pkgFractal+".LocalSuperior", "taskCache")
+		}, 1)
+		var outs []*ssa.Call
+		allInstrs(f, func(in ssa.Instruction) {
+			if cl, ok := in.(*ssa.Call); ok && (isCall(cl, "(*"+pkgFractal+".baseSuperior).Send") || isCall(cl, "(*"+pkgFractal+".baseSuperior).Broadcast")) {
+				outs = append(outs, cl)
+			}
+		})
+		switch {
+		case len(regs) == 0 || len(outs) == 0:
+			c.Bad(rule, key, c.Pos(f.Pos()), "reason=anchor-missing: taskCache.Add or Send/Broadcast in AddTask")
+		default:
+			bad := false
+			for _, o := range outs {
+				dom := false
+				for _, r := range regs {
+					if instrDominates(r.Site, o) {
+						dom = true
+					}
+				}
+				if !dom {
+					bad = true
+					c.Bad(rule, key, c.Pos(o.Pos()), "the request is sent before the task's channel is registered in the task cache: a report that arrives first finds no waiter and is silently dropped")
+				}
+			}
+			idOK := false
+			for _, r := range regs {
+				for v := range sliceVia(callArgs(r.Step)[0], r).vals {
+					if inv, isInv := v.(*ssa.Call); isInv && inv.Call.IsInvoke() && inv.Call.Method.Name() == "ID" && backSlice(inv.Call.Value).hasParam(f, "req") {
+						idOK = true
+					}
+				}
+			}
+			if !idOK {
+				bad = true
+				c.Bad(rule, key, c.Pos(f.Pos()), "the task's channel is not registered under the id of the request that is sent")
+			}
+			if !bad {
+				c.OK(rule, key, c.Pos(regs[0].Site.Pos()), "taskCache.Add(req.ID(), ch) dominates Send and Broadcast")
+			}
 		}
 	}
 	if f := c.MustFn(rule, "fractal", "(*LocalSuperior).onTypeMsg"); f != nil {
